@@ -222,6 +222,16 @@ class Ex:
             op = {ast.Eq: "==", ast.NotEq: "!="}.get(type(e.ops[0]))
             if op:
                 return f"{self.int(e.left)} {op} {self.int(e.comparators[0])}"
+            op = {ast.Lt: "<", ast.LtE: "≤", ast.Gt: ">", ast.GtE: "≥"}.get(type(e.ops[0]))
+            if op:      # (round 6) order comparisons of integers, e.g. the bounds of a sector
+                return f"{self.int(e.left)} {op} {self.int(e.comparators[0])}"
+        # (round 6) `not np.any(points)` / `np.any(points)`: is some coordinate of some point non-zero?
+        neg = isinstance(e, ast.UnaryOp) and isinstance(e.op, ast.Not)
+        c = e.operand if neg else e
+        if isinstance(c, ast.Call) and _src(c.func) == "np.any" and len(c.args) == 1 and not c.keywords:
+            t, ty = self.any(c.args[0])
+            if ty == Ty.PTS:
+                return f"npAnyPoints {t} = {'false' if neg else 'true'}"
         self.fail(e, "(condition)")
 
 
@@ -346,8 +356,58 @@ class Block:
         self.env["s_ab"] = ("s_ab", Ty.TAB)
         return j
 
+    # ---- (round 6) loop control: `if <cond>: break` / `if <cond>: continue` at the top level of a loop body -------------
+    @staticmethod
+    def is_control(st):
+        return (isinstance(st, ast.If) and not st.orelse and len(st.body) == 1 and isinstance(st.body[0], (ast.Break, ast.Continue)))
+
+    def has_loop_control(self, body):
+        if any(isinstance(n, (ast.Break, ast.Continue)) for st in body for n in ast.walk(st)):
+            if not all(self.is_control(st) or not any(isinstance(n, (ast.Break, ast.Continue)) for n in ast.walk(st)) for st in body):
+                raise Untranslatable(f"{self.meth}: break / continue in a position that is not `if <cond>: break|continue` at the top of the loop body")
+            return True
+        return False
+
+    def for_with_control(self, ind, st):
+        """a loop with `break` / `continue`: Lean's `forIn` (`ForInStep.done` = break, `.yield` = next iteration)"""
+        ex = self.ex()
+        names = self.assigned(st.body)
+        carried = [n for n in names if n in self.env]
+        if len(carried) != 1:
+            raise Untranslatable(f"{self.meth}: loop assigning {names}")
+        v = carried[0]
+        it = st.iter
+        if isinstance(it, ast.Call) and _src(it.func) == "range" and len(it.args) == 1 and not it.keywords:
+            seq, ety = f"(pyRange {ex.int(it.args[0])})", Ty.INT
+        else:
+            t, ty = ex.any(it)
+            if ty != Ty.LNAT:
+                raise Untranslatable(f"{self.meth}: loop over `{_src(it)}`")
+            seq, ety = t, Ty.NAT
+        self.comment(ind, st, only_head=True)
+        self.emit(ind, f"let {v} ← forIn {seq} {v} (fun ({st.target.id} : {ety}) {v} => do")
+        saved = dict(self.env)
+        self.env[st.target.id] = (st.target.id, ety)
+        depth = ind + 1
+        for b in st.body:
+            if self.is_control(b):
+                self.comment(depth, b)
+                step = "ForInStep.done" if isinstance(b.body[0], ast.Break) else "ForInStep.yield"
+                self.emit(depth, f"if {self.ex().cond(b.test)} then pure ({step} {v}) else do")
+                depth += 1
+            else:
+                self.stmts(depth, [b])
+        self.emit(depth, f"pure (ForInStep.yield {v}))")
+        self.env = saved
+
     def stmt(self, ind, st):
         ex = self.ex()
+        # (round 6) early return: `if <cond>: return <array>`; the rest of the function is the else branch
+        if isinstance(st, ast.If) and not st.orelse and len(st.body) == 1 and isinstance(st.body[0], ast.Return) and st.body[0].value is not None:
+            self.comment(ind, st)
+            self.emit(ind, f"if {ex.cond(st.test)} then")
+            self.emit(ind + 1, f"return {ex.typed(st.body[0].value, Ty.LK)}")
+            return
         if isinstance(st, ast.If) and _src(st.test) == "select is None":
             return self.select_norm(ind, st)
         if isinstance(st, ast.If) and _src(st.test) == "pt_ind is None":
@@ -395,6 +455,8 @@ class Block:
             self.emit(ind + 2, f"pure {v})")
             self.env = saved
             return
+        if isinstance(st, ast.For) and not st.orelse and isinstance(st.target, ast.Name) and self.has_loop_control(st.body):
+            return self.for_with_control(ind, st)
         if isinstance(st, ast.For) and not st.orelse and isinstance(st.target, ast.Name):
             it = st.iter
             names = self.assigned(st.body)
@@ -677,7 +739,10 @@ def lean_text():
     P.append(f"def call {SIG}\n    (indices : List Int) : Except Err (List K) := do")
     P += bk.lines
     P.append("\nend\nend GridVerif.Gen.BeckeRoutes\n")
-    return "\n".join(P)
+    text = "\n".join(P)
+    if "npAnyPoints" in text:        # (round 6) a guard primitive the pinned source does not need
+        text = text.replace("import GridVerif.Model.BeckePy\n", "import GridVerif.Model.BeckePy\nimport GridVerif.Model.BeckeGuards\n", 1)
+    return text
 
 
 def generate():
